@@ -17,7 +17,6 @@
 -/
 import Vita.C06.Decide
 import Vita.C06.Tune
-import Vita.C06.Props
 open Vita.C06
 
 /-! ### probabilities as bit patterns of doubles -/
